@@ -1278,9 +1278,12 @@ class Wordnet:
             if self._default_mode:
                 expand = '*'
             else:
-                deps = [(id, ver, _id)
-                        for lex in self._lexicons
-                        for id, ver, _, _id in get_lexicon_dependencies(lex._id)]
+                # a dependency shared by several lexicons counts once
+                deps = list(dict.fromkeys(
+                    (id, ver, _id)
+                    for lex in self._lexicons
+                    for id, ver, _, _id in get_lexicon_dependencies(lex._id)
+                ))
                 # warn only if a dep is missing and a lexicon was specified
                 if not self._default_mode:
                     missing = ' '.join(
